@@ -22,7 +22,7 @@ pub fn collect_items<'tcx>(tcx: TyCtxt<'tcx>) -> J {
             DefKind::Enum | DefKind::Struct | DefKind::Union => {
                 let adt = tcx.adt_def(did);
                 j.put("repr", J::s(format!("{:?}", adt.repr())));
-                j.put("vis", J::s(format!("{:?}", tcx.visibility(did))));
+                j.put("vis", J::s(crate::vis_str(tcx, tcx.visibility(did))));
                 let mut vs = Vec::new();
                 if adt.is_enum() {
                     for (idx, discr) in adt.discriminants(tcx) {
@@ -60,7 +60,7 @@ pub fn collect_items<'tcx>(tcx: TyCtxt<'tcx>) -> J {
                 j.put("derived", J::Bool(span.from_expansion()));
             }
             DefKind::Trait => {
-                j.put("vis", J::s(format!("{:?}", tcx.visibility(did))));
+                j.put("vis", J::s(crate::vis_str(tcx, tcx.visibility(did))));
                 j.put("reachable", J::Bool(tcx.effective_visibilities(()).is_reachable(ldid)));
                 let mut sup = Vec::new();
                 for cs in tcx.explicit_super_predicates_of(did).iter_identity_copied() {
@@ -77,7 +77,7 @@ pub fn collect_items<'tcx>(tcx: TyCtxt<'tcx>) -> J {
                                 None => true,
                             }))
                             .set("path", J::s(def_path(tcx, sd)))
-                            .set("vis", J::s(format!("{:?}", tcx.visibility(sd))))
+                            .set("vis", J::s(crate::vis_str(tcx, tcx.visibility(sd))))
                             .set("local", J::Bool(sd.is_local())));
                     }
                 }
@@ -95,7 +95,7 @@ pub fn collect_items<'tcx>(tcx: TyCtxt<'tcx>) -> J {
                 j.put("assoc", J::Arr(ms));
             }
             DefKind::Const { .. } | DefKind::AssocConst { .. } | DefKind::Static { .. } => {
-                j.put("vis", J::s(format!("{:?}", tcx.visibility(did))));
+                j.put("vis", J::s(crate::vis_str(tcx, tcx.visibility(did))));
                 let ty = tcx.type_of(did).instantiate_identity().skip_norm_wip();
                 j.put("ty", J::s(format!("{}", ty)));
                 if matches!(kind, DefKind::Static { .. }) {
@@ -110,7 +110,7 @@ pub fn collect_items<'tcx>(tcx: TyCtxt<'tcx>) -> J {
             }
             DefKind::Fn | DefKind::AssocFn => {
                 // signature facts live with the body; trait method declarations without body:
-                j.put("vis", J::s(format!("{:?}", tcx.visibility(did))));
+                j.put("vis", J::s(crate::vis_str(tcx, tcx.visibility(did))));
                 let sig = tcx.fn_sig(did).instantiate_identity().skip_norm_wip().skip_binder();
                 j.put("sig", J::s(format!("{}", sig)));
                 j.put("unsafe_fn", J::Bool(sig.safety().is_unsafe()));
@@ -157,7 +157,7 @@ fn fields<'tcx>(tcx: TyCtxt<'tcx>, v: &ty::VariantDef) -> J {
         fs.push(J::obj()
             .set("name", J::s(f.name.to_string()))
             .set("ty", J::s(format!("{}", tcx.type_of(f.did).instantiate_identity().skip_norm_wip())))
-            .set("vis", J::s(format!("{:?}", f.vis))));
+            .set("vis", J::s(crate::vis_str(tcx, f.vis))));
     }
     J::Arr(fs)
 }
